@@ -50,7 +50,7 @@ pub struct Cfg { pub seed: u64, pub steps: u64, pub step_size: u64, pub tick: u3
 
 pub fn cfg(i: u64, base: u64) -> Cfg {
     let mut g = Sm(base.wrapping_mul(0x9E3779B97F4A7C15) ^ (i + 1).wrapping_mul(0xD6E8FEB86659FD93));
-    Cfg { seed: g.next() >> g.below(60), steps: 1 + g.below(47), step_size: *g.pick(&[100u64, 1000, 1_000_000]), tick: 1 + g.below(10) as u32, market: g.chance(1, 3), shape: g.below(2) as u8 }
+    Cfg { seed: g.next() >> g.below(60), steps: { let r = g.below(20); if r < 13 { 1 + g.below(47) } else if r < 19 { 200 + g.below(600) } else { 1000 + g.below(2500) } }, step_size: *g.pick(&[100u64, 1000, 1_000_000]), tick: 1 + g.below(10) as u32, market: g.chance(1, 3), shape: g.below(2) as u8 }
 }
 
 fn noise(tick: u32, first: u32, g: &mut Sm) -> NoiseAgentParams {
@@ -212,8 +212,9 @@ fn momentum_flow(path: &[i64], seed: u64, n: u16, params: &MomentumParams, marke
             let ids: Vec<usize> = env.get_orders().iter().filter(|o| u8::from(o.status) == 1).map(|o| o.order_id).collect();
             for i in ids { env.cancel_order(i); }
             env.step(&mut rng);   // old quotes out before the new ones go in (they could cross each other)
-            env.place_order(Side::Bid, 1_000_000, 999, Some(((mid - 2) * tick) as u32)).unwrap();
-            env.place_order(Side::Ask, 1_000_000, 999, Some(((mid + 2) * tick) as u32)).unwrap();
+            let hs = if mid % 2 == 0 { 4 } else { 3 };      // path is in half ticks: an odd value puts the mid-price between two grid points
+            env.place_order(Side::Bid, 1_000_000, 999, Some((((mid - hs) / 2) * tick) as u32)).unwrap();
+            env.place_order(Side::Ask, 1_000_000, 999, Some((((mid + hs) / 2) * tick) as u32)).unwrap();
             env.step(&mut rng);
             let before = env.get_orders().len();
             agent.update(&mut env, &mut rng);
@@ -229,8 +230,9 @@ fn momentum_flow(path: &[i64], seed: u64, n: u16, params: &MomentumParams, marke
             let ids: Vec<usize> = env.get_orders(1).iter().filter(|o| u8::from(o.status) == 1).map(|o| o.order_id).collect();
             for i in ids { env.cancel_order((1, i)); }
             env.step(&mut rng);
-            env.place_order(1, Side::Bid, 1_000_000, 999, Some(((mid - 2) * tick) as u32)).unwrap();
-            env.place_order(1, Side::Ask, 1_000_000, 999, Some(((mid + 2) * tick) as u32)).unwrap();
+            let hs = if mid % 2 == 0 { 4 } else { 3 };
+            env.place_order(1, Side::Bid, 1_000_000, 999, Some((((mid - hs) / 2) * tick) as u32)).unwrap();
+            env.place_order(1, Side::Ask, 1_000_000, 999, Some((((mid + hs) / 2) * tick) as u32)).unwrap();
             env.step(&mut rng);
             let before = env.get_orders(1).len();
             agent.update(&mut env, &mut rng);
@@ -254,11 +256,11 @@ pub fn momentum_mirror(base: u64, count: u64) -> (Vec<String>, String) {
         let params = MomentumParams { tick_size: 1 + g.below(4) as u32, p_cancel: 0.0, trade_vol: 1 + g.below(9) as u32,
             decay: *g.pick(&[0.3f64, 0.5, 1.0]), demand: if saturated { 1000.0 * n as f64 } else { *g.pick(&[0.5f64, 1.0, 2.0]) }, scale: *g.pick(&[0.5f64, 1.0]),
             order_ratio: *g.pick(&[1.0f64, 2.0]), price_dist_mu: 0.0, price_dist_sigma: 0.5 };
-        let level = 200i64;
+        let level = 400i64;      // half ticks
         let len = 3 + g.below(8) as usize;
         let mut path = vec![level];
         let shape = g.below(4);
-        for s in 1..len { let d = match shape { 0 => 2, 1 => -2, 2 => *g.pick(&[3i64, -3, 0]), _ => if s % 3 == 0 { 4 } else { 0 } }; let l = *path.last().unwrap(); path.push((l + d).clamp(150, 250)); }
+        for s in 1..len { let d = match shape { 0 => *g.pick(&[1i64, 2, 4]), 1 => -*g.pick(&[1i64, 2, 4]), 2 => *g.pick(&[3i64, -3, 0, 1, -1, 6, -6]), _ => if s % 3 == 0 { *g.pick(&[1i64, 8]) } else { 0 } }; let l = *path.last().unwrap(); path.push((l + d).clamp(300, 500)); }
         let mirror: Vec<i64> = path.iter().map(|p| 2 * level - p).collect();
         let seed = g.next();
         let market = g.chance(1, 3);
@@ -276,7 +278,7 @@ pub fn momentum_mirror(base: u64, count: u64) -> (Vec<String>, String) {
         // direction and count at saturated demand: M = m(1-decay) + decay(P-p) recomputed in f64 as documented
         let mut m = 0.0f64;
         for k in 1..path.len() {
-            m = m * (1.0 - params.decay) + params.decay * ((path[k] - path[k - 1]) as f64);
+            m = m * (1.0 - params.decay) + params.decay * ((path[k] - path[k - 1]) as f64 * 0.5 * params.tick_size as f64);
             let (bu, se, _) = a[k];
             if m != 0.0 { nonzero_steps += 1; }
             if m > 0.0 && se > 0 { fails.push(format!("sell orders while M = {} > 0 at step {}; {}", m, k, desc)); break; }
